@@ -1,10 +1,13 @@
-"""C13 deep rule R1d: TheoryOracle interpreted on operator skeletons; the theory it reports must
+"""C13 deep rule R5: get_logic(f) and the set-logic command smtlibscript_from_formula(f) writes are interpreted on the same
+skeletons; the logic they name must enable every feature, be non-linear if the term is, and not be quantifier-free
+if the skeleton has a quantifier.
+C13 deep rule R1d: TheoryOracle interpreted on operator skeletons; the theory it reports must
 enable every feature the skeleton uses (computed structurally from sorts and operators).
 C14 R2 (shared with this run): analysing a term must not change the cached theory of its sub-terms."""
 from ..common import get_repo, parallel_map
 from .. import proc, refsem
 from .. import simpcheck as sc
-from ..absint import AObj
+from ..absint import AObj, AbsRaise
 
 FLAGS = ["arrays", "arrays_const", "bit_vectors", "floating_point", "integer_arithmetic", "real_arithmetic",
          "integer_difference", "real_difference", "linear", "uninterpreted", "custom_type", "strings"]
@@ -81,6 +84,21 @@ def _job(shape):
     def call(w, it, f):
         o = w.new_walker("pysmt.oracles.TheoryOracle", w.env)
         t = it.call(it.getattr(o, "get_theory"), [f])
+        # R5: the labels the callers attach - get_logic(f) and the set-logic command of the exported script
+        labels = {}
+        for what, fn, args in (("get_logic", "pysmt.oracles.get_logic", [f, w.env]),
+                               ("smtlibscript_from_formula", "pysmt.smtlib.script.smtlibscript_from_formula", [f])):
+            try:
+                mod, name = fn.rsplit(".", 1)
+                r = it.call(it.module_global(w.repo.modules[mod], name), args)
+            except AbsRaise as ex:
+                labels[what] = ("raise", ex.cls_name)
+                continue
+            if what != "get_logic":
+                cmds = [c for c in it.iterate(it.getattr(r, "commands")) if it.getattr(c, "name") == "set-logic"]
+                r = it.iterate(it.getattr(cmds[0], "args"))[0] if cmds else None
+            labels[what] = ("ret", r)
+        o.attrs["#labels"] = labels
         return (o, t)
 
     def post(w, f, r, facts):
@@ -98,6 +116,33 @@ def _job(shape):
             res.append("the term is non-linear but the detected theory is linear")
         if res:
             return proc.ProcResult(shape, "invalid", "; ".join(res), str(dict((k, v) for k, v in fl.items() if v)))
+        quantified, st_, seen_ = False, [f], set()
+        while st_:
+            x = st_.pop()
+            if id(x) in seen_:
+                continue
+            seen_.add(id(x))
+            quantified = quantified or w.opname(x) in ("FORALL", "EXISTS")
+            st_.extend(w.nargs(x))
+        for what, (st, lg) in sorted(o.attrs.pop("#labels", {}).items()):
+            if st == "raise":
+                if lg != "NoLogicAvailableError":      # declining to label is sound
+                    res.append("%s raises %s" % (what, lg))
+                continue
+            if not isinstance(lg, AObj) or not lg.cls.endswith("logics.Logic"):
+                res.append("%s labels the formula with %r, not a logic" % (what, lg))
+                continue
+            lfl = flags_of(lg.attrs["theory"])
+            miss = sorted(x for x in req if lfl.get(x) is not True)
+            nm = lg.attrs.get("name")
+            if miss:
+                res.append("%s labels the formula with %s, which lacks %s" % (what, nm, miss))
+            if nonlin and lfl.get("linear") is not False:
+                res.append("%s labels the non-linear formula with the linear logic %s" % (what, nm))
+            if quantified and lg.attrs.get("quantifier_free") is not False:
+                res.append("%s labels the quantified formula with the quantifier-free logic %s" % (what, nm))
+        if res:
+            return proc.ProcResult(shape, "label-invalid", "; ".join(res), str(dict((k, v) for k, v in fl.items() if v)))
         # C14 R2: every memoised sub-term still has the theory a fresh oracle computes for it
         memo = o.attrs.get("memoization", {})
         stale = []
@@ -113,27 +158,44 @@ def _job(shape):
             return proc.ProcResult(shape, "stale", "; ".join(stale[:3]))
         return proc.ProcResult(shape, "valid", "features %s%s" % (sorted(req), " non-linear" if nonlin else ""),
                                str(sorted(k for k, v in fl.items() if v)))
-    res = proc.run_proc(shape, call, post=post)
+    res = proc.run_proc(shape, call, post=post, services="full")
     return [(repr(shape), r.kind, str(r.detail), r.result) for r in res]
 
 
 _OUT = {}
 
 
-def results():
-    if "r" not in _OUT:
+def results(tier="quick"):
+    if tier not in _OUT:
         shapes = proc.term_shapes() + proc.quantified_shapes()[:8] + proc.boolean_shapes(depth2=False)[:8]
-        _OUT["r"] = parallel_map(_job, shapes)
-    return _OUT["r"]
+        if tier == "thorough":
+            shapes = proc.in_contexts(proc.term_shapes() + proc.quantified_shapes() + proc.boolean_shapes(depth2=False))
+        _OUT[tier] = parallel_map(_job, shapes)
+    return _OUT[tier]
+
+
+def run_labels(ctx):
+    rs = ctx.rule("R5", "get_logic / smtlibscript_from_formula label the formula with a logic that enables every feature it uses")
+    for res in results(ctx.tier):
+        for shape, kind, detail, result in res:
+            if kind in ("valid", "stale"):
+                rs.ok({"shape": shape, "labels": "get_logic, set-logic of the exported script"})
+            elif kind == "label-invalid":
+                ctx.finding(rs, "label|%s" % shape, "%s: %s" % (shape, detail), "pysmt/oracles.py")
+            elif kind not in ("vacuous", "invalid", "raises"):
+                rs.unrec("labels(%s): %s" % (shape, detail[:120]))
+    ctx.floor(rs, 45)
 
 
 def run(ctx):
+    if ctx.want("R5"):
+        run_labels(ctx)
     if not ctx.want("R1d"):
         return
     rs = ctx.rule("R1d", "TheoryOracle: the detected theory enables every feature the skeleton uses")
-    for res in results():
+    for res in results(ctx.tier):
         for shape, kind, detail, result in res:
-            if kind in ("valid", "stale"):
+            if kind in ("valid", "stale", "label-invalid"):
                 rs.ok({"shape": shape, "uses": detail if kind == "valid" else "(see C14 R2)", "detected": result})
             elif kind == "invalid":
                 ctx.finding(rs, "TheoryOracle|%s" % shape, "get_theory(%s): %s [detected %s]" % (shape, detail, result),
